@@ -14,7 +14,7 @@ from vf.runner import Ctx, Partial, Violation, digest, hyp_search, shard_map
 RULE = ("RFC 5322/MIME messages produced by the standard library's email generator (policy SMTP) from a model: subjects and display names over ASCII / Latin / Cyrillic / CJK / emoji "
         "(RFC 2047 words, long values folded), address lists with quoted commas, Cc/Bcc/Reply-To/In-Reply-To, dates in varied zones, plain and/or HTML bodies in us-ascii, utf-8, "
         "iso-8859-1, iso-8859-15, windows-1252, koi8-r, shift_jis with 7bit/8bit/quoted-printable/base64, structures single / alternative / mixed / mixed(alternative) / "
-        "mixed(related(alternative)), 0..3 attachments that are generated documents (pdf, docx, xlsx, txt, csv, html) or binary blobs with ASCII / non-ASCII (RFC 2231) names; mboxes of "
+        "mixed(related(alternative)), optionally with the attachments in front of the body, a forwarded message attached as message/rfc822, two attachments of one name or of one declared type, 0..3 attachments that are generated documents (pdf, docx, xlsx, txt, csv, html) or binary blobs with ASCII / non-ASCII (RFC 2231) names; mboxes of "
         "1..4 such messages with LF or CRLF line ends and bodies containing '>From ' escapes and near-separator lines. Oracle: decoded subject, exact sender and recipient (name, address) "
         "pairs, same-instant ISO date, message id, plain and HTML bodies (modulo line ends and outer whitespace), every attachment with name, type and exact bytes; one mbox result per "
         "message in order, equal field by field to the .eml result of the same message; supported attachments extract to the same content as the attached file on its own. "
